@@ -300,10 +300,64 @@ def work_wide(args):
     return ctx.export()
 
 
+def work_worm(args):
+    '''db.tools.worm.consume (the operator tool built on remove): every
+    criteria tuple over {None, value} per field, incl. the legal run id 0'''
+    tier, seed = args
+    import dawgie.db
+    import dawgie.db.tools.worm as worm
+    from dawgie.db.shelve.state import DBI
+    from . import world
+
+    ctx = common.Ctx('C08', tier, seed, LEVEL)
+    content = [(r, t, 't', a, (1, 0, 0), 's', 'v') for r in (0, 1, 2) for t in ('T', 'T1') for a in ('a', 'ab')
+               if not (t == 'T1' and r == 2)]
+    crit = []
+    for r in (None, 0, 1):
+        for t in (None, 'T'):
+            for a in (None, 'a'):
+                for v in (None, 'v'):
+                    if (r, t, a, v) != (None, None, None, None):
+                        crit.append((r, t, None, a, None, v))
+    for c in crit:
+        w = world.StoreWorld()
+        try:
+            for n, k in enumerate(content):
+                insert(k, 0)
+            before = set(dawgie.db._prime_keys())
+            ctx.count('removes')
+            try:
+                worm.consume(*c)
+            except Exception as e:  # noqa
+                ctx.violation(f'C08/worm-raises/{type(e).__name__}', f'consume{c} raised {e!r}',
+                              {'content': content, 'op': ['consume', list(c)]})
+                continue
+            w.activate()
+            dawgie.db.open()
+            after = set(dawgie.db._prime_keys())
+            want = set()
+            for key in before:
+                ids = key.split('.')
+                ids[0] = int(ids[0])
+                if all(e is None or i == e for i, e in zip(ids, c)):
+                    want.add(key)
+            if before - after != want:
+                extra = sorted((before - after) - want)
+                ctx.violation('C08/worm/' + ('removed-other-entries' if extra else 'not-removed')
+                              + ('/run-id-0' if c[0] == 0 else ''),
+                              f'consume{c} removed {sorted(before - after)}, criteria match {sorted(want)}',
+                              {'content': content, 'op': ['consume', list(c)]})
+        finally:
+            w.close()
+    return ctx.export()
+
+
 def run(ctx):
     from . import world
     world.validate_digest_seam(common.scratch_root())
     for r in common.pmap(work_wide, [(ctx.tier, ctx.seed, 0), (ctx.tier, ctx.seed, 1)]):
+        ctx.merge(r)
+    for r in common.pmap(work_worm, [(ctx.tier, ctx.seed)]):
         ctx.merge(r)
     nsh = 32
     shapes = set()
